@@ -216,6 +216,9 @@ fn judge_place(rec: &mut Recorder, c: &place::PlaceCase, ex: Exec, _hello: &Valu
         rec.class("discarded");
         return Ok(());
     }
+    if c.in_teardown {
+        rec.class("case-inside-tear-down-while-unwinding");
+    }
     rec.eval(|| json!({"case": c, "target": format!("{:#x}", o.target_addr), "trampoline_page": o.tramp_page.map(|p| format!("{p:#x}")), "fake": o.fake_addr.map(|p| format!("{p:#x}")), "status": o.status, "decode": o.decode_trace, "calls": o.calls}));
     let tclass = match &c.target {
         TargetSel::Real(_) => "real".to_string(),
